@@ -100,24 +100,58 @@ static std::map<std::string, long long> g_leakPrev;
 static int g_leakFile = -1;
 static std::string leakSig(const std::vector<std::string>& frames)
 {
-   std::string sig;
+   // "<innermost two SoPlex frames>@<reader function on the stack>": a property of the allocation stack alone.  The case that is
+   // running when LSan first sees the block is NOT part of the key: LSan scans conservatively, a stale pointer left in a dead stack
+   // slot can hide a leaked block for a few cases.
+   static const char* const readers[] = {"readLPF", "readMPS", "readBasis", "loadSettingsFile", "parseSettingsString", "_parseSettingsLine", "readBasisFile", "readFile"};
+   std::string sig, reader, firstOther;
    int n = 0;
    for(auto& f : frames)
    {
-      // "    #1 0x... in soplex::NameSet::NameSet(...) /repo/src/soplex/nameset.cpp:200"
+      // "    #1 0x... in soplex::NameSet::NameSet(...) /repo/src/soplex/nameset.cpp:200"   or   "... (/path/binary+0x123)"
       size_t pin = f.find(" in ");
       if(pin == std::string::npos) continue;
       std::string rest = f.substr(pin + 4);
+      while(!rest.empty() && (rest.back() == '\n' || rest.back() == ' ')) rest.pop_back();
       size_t sp = rest.rfind(' ');
-      std::string path = sp == std::string::npos ? "" : rest.substr(sp + 1);
-      if(path.find("/src/soplex") == std::string::npos) continue;
-      std::string fn = cleanFn(rest.substr(0, sp));
+      std::string fnfull = sp == std::string::npos ? rest : rest.substr(0, sp);
+      {
+         // a SoPlex function, not a std:: function instantiated over SoPlex types: look at the name outside template arguments and parameters
+         std::string top;
+         int depth = 0;
+         for(char ch : fnfull)
+         {
+            if(ch == '<' || ch == '(') depth++;
+            else if(ch == '>' || ch == ')') depth--;
+            else if(depth == 0) top += ch;
+         }
+         if(top.find("soplex::") == std::string::npos)
+         {
+            if(firstOther.empty() && top.find("__interceptor") == std::string::npos && top.find("operator new") == std::string::npos) firstOther = cleanFn(top);
+            continue;
+         }
+      }
+      std::string fn = cleanFn(fnfull);
       if(fn.empty()) continue;
-      if(sig.find(fn) != std::string::npos) continue;
-      sig += (sig.empty() ? "" : "|") + fn;
-      if(++n >= 2) break;
+      if(fnfull.find("SPxLPBase<boost::multiprecision") != std::string::npos && fn.compare(0, 11, "SPxLPBase::") == 0) fn = "SPxLPBaseRational::" + fn.substr(11);
+      if(reader.empty()) for(auto r : readers)
+         {
+            size_t q = fn.rfind(r);
+            if(q != std::string::npos && q + strlen(r) == fn.size() && (q == 0 || fn[q - 1] == ':'))
+            {
+               reader = fn;
+               break;
+            }
+         }
+      if(n < 2 && sig.find(fn) == std::string::npos)
+      {
+         sig += (sig.empty() ? "" : "|") + fn;
+         n++;
+      }
+      if(n >= 2 && !reader.empty()) break;
    }
-   return sig.empty() ? "unknown" : sig;
+   if(sig.empty()) sig = firstOther.empty() ? "unknown" : firstOther;
+   return sig + "@" + (reader.empty() ? "?" : reader);
 }
 // returns signatures whose leaked byte count grew since the previous check (LSan re-reports old leaks every time)
 static std::vector<std::pair<std::string, std::string>> leakCheck()
@@ -218,7 +252,7 @@ static void execCase(long long k, const std::string& sub, const CaseIn& in0, con
       for(auto& g : leakCheck())
       {
          S.count(std::string("entry.") + entryName[in.entry] + ".leak");
-         S.viol(std::string("C13:leak:") + entryName[in.entry] + ":" + g.first, g.second);
+         S.viol(std::string("C13:leak:") + g.first, std::string("first seen by LeakSanitizer while running a ") + entryName[in.entry] + " case; " + g.second);
       }
    }
    else
@@ -228,7 +262,7 @@ static void execCase(long long k, const std::string& sub, const CaseIn& in0, con
       for(auto& g : leakCheck())
       {
          S.count(std::string("entry.") + entryName[in.entry] + ".leak_on_exception");
-         S.viol(std::string("C13:leak-on-exception:") + entryName[in.entry] + ":" + g.first, "after " + out.extype + " escaped: " + g.second);
+         S.viol(std::string("C13:leak-on-exception:") + g.first, std::string("seen after ") + out.extype + " escaped from a " + entryName[in.entry] + " case: " + g.second);
       }
    }
 #endif
